@@ -22,6 +22,7 @@ type muxReg struct {
 	Req  bool   `json:"req"`
 	Name string `json:"name"`
 	Hid  int    `json:"hid"`
+	Sp   string `json:"sp"`
 }
 type muxMsg struct {
 	App  uint32 `json:"app"`
@@ -83,7 +84,11 @@ func runMux(id int, c *muxCase, via string, short string) muxLine {
 		case "name":
 			mux.Handle(r.Name, h)
 		case "all":
-			mux.Handle("ALL", h)
+			if r.Sp == "handleidx" {
+				mux.HandleIdx(diam.ALL_CMD_INDEX, h)
+			} else {
+				mux.Handle("ALL", h)
+			}
 		}
 	}
 	var flags uint8
